@@ -2,6 +2,7 @@ package p2c
 
 import (
 	"math"
+	"time"
 
 	"github.com/gotid/god/lib/syncx"
 	"google.golang.org/grpc/balancer"
@@ -90,4 +91,43 @@ func Verif_C14_done() {
 	// and largest observed latency)
 	verifAssert(lag >= 0, "observed latency is non-negative")
 	verifAssert(c.lag == uint64(float64(olag)*w+float64(lag)*(1-w)), "latency estimate = w*old + (1-w)*observed with w = exp(-td/decay), w = 0 on the first sample")
+}
+
+// H14e: health tracking with CONCRETE completion spacing, so that the decay
+// weight is the real math.Exp value in both worlds (counterexamples replay
+// natively): a backend whose calls all fail loses score on every completion —
+// strictly, whatever the spacing from 1 µs to 10 s — so it is unhealthy after
+// a bounded number of completions; and an acceptable completion never lowers
+// the score by more than the truncation unit.
+func Verif_C14_health() {
+	gaps := []time.Duration{time.Microsecond, time.Millisecond, 100 * time.Millisecond, time.Second, 10 * time.Second}
+	cs := verifCase(2 * len(gaps))
+	gap := gaps[cs/2]
+	unacceptable := cs%2 == 1
+	c, other := verifConn(0), verifConn(1)
+	verifLoads = map[*subConn]int64{}
+	p := &p2cPicker{conns: []*subConn{c, other}, stamp: syncx.NewAtomicDuration()}
+	// previous completion at a concrete instant, this one `gap` later; not the first sample
+	const base = int64(50 * time.Second)
+	c.last = base
+	verifAssume(c.lag >= 1)
+	verifAssume(c.success >= 1)
+	verifClock = time.Duration(base)
+	done := p.buildDoneFunc(c)
+	verifClock = time.Duration(base) + gap
+	p.stamp.Set(verifClock)
+	oSuccess := c.success
+	info := balancer.DoneInfo{}
+	if unacceptable {
+		info.Err, verifAcceptableAnswer = verifErr, false
+	}
+	done(info)
+	verifAssert(c.success <= verifMaxScore, "success score stays within [0,1000]")
+	if unacceptable {
+		verifAssert(c.success < oSuccess, "an unacceptable completion strictly lowers a positive success score (a backend whose calls all fail becomes unhealthy after a bounded number of completions)")
+		verifReach("health-down")
+	} else {
+		verifAssert(c.success+1 >= oSuccess, "an acceptable completion moves the success score towards 1000")
+		verifReach("health-up")
+	}
 }
